@@ -14,6 +14,7 @@ REG.contract('C03', N, 'ninja_quote', params={'text': Str, 'is_build_line': Bool
              note='a newline can never be written into a ninja file: always an error; otherwise one regex substitution that prefixes the special characters with $')
 REG.contract('C03', N, 'ninja_quote', variant='callee', trusted=True, params={'text': Str, 'is_build_line': Bool},
              ensures=['result == nq(text, is_build_line)'], raises={'MesonException': "'\\n' in text"}, result=Str,
+             pure_expr='nq(text, is_build_line)', pure_ignores_raises=True,
              note='definitional for callers: nq names the escaped text (the body is the verified contract above)')
 
 ArgS = Struct('NinjaCommandArg', 'mesonbuild.backend.ninjabackend:NinjaCommandArg', s=Str, quoting=Quoting)
